@@ -222,6 +222,20 @@ Proof.
   change (in_mem 1) with true. cbv iota. rewrite Ha at 1. cbv iota. rewrite H2, H3. rewrite Ha. reflexivity.
 Qed.
 
+(* get from the console: the byte (255 at the end of the input) goes to the word sp + 1, the input advances *)
+Definition console_next (inp : inputs) : inputs := {| console := snd (next_byte (console inp)); files := files inp |}.
+Definition console_byte (inp : inputs) : Z := fst (next_byte (console inp)) mod 256.
+Lemma step_svc_get s inp : at_byte s 13 3 -> areg s = 2 ->
+  in_mem (wrap (rd (mem s) 1 + 2)) = true -> in_mem (wrap (rd (mem s) 1 + 1)) = true ->
+  is_console (rd (mem s) (wrap (rd (mem s) 1 + 2))) = true ->
+  step s inp = Ok (mk (wrap (pc s + 1)) (areg s) (breg s) 0 (wr (mem s) (wrap (rd (mem s) 1 + 1)) (console_byte inp)), console_next inp,
+                   Read (rd (mem s) (wrap (rd (mem s) 1 + 2))) (console_byte inp)).
+Proof.
+  intros (Hm & Hop & Ho) Ha H2 H1 Hcon. step_tac Hm Hop Ho.
+  change (in_mem 1) with true. cbv iota. rewrite Ha at 1. cbv iota. rewrite H2. unfold simin. rewrite Hcon.
+  unfold console_next, console_byte. destruct (next_byte (console inp)) as [bb r]. cbn [fst snd]. rewrite H1. rewrite Ha. reflexivity.
+Qed.
+
 (* ---------------------------------------------------------------- straight-line instructions *)
 Definition sem (i : instr) (a b : Z) (m : WMap.t) : Z * Z * WMap.t :=
   match i with
@@ -345,6 +359,19 @@ Proof.
   eapply taus_exits; [exact Ht|]. cbn [opc operand] in Hby.
   rewrite <- Hm in Hin. pose proof (step_svc_exit s' inp Hby Ha Hin) as Hs. rewrite Hm in Hs.
   eapply exits_one. exact Hs.
+Qed.
+
+Lemma exec_svc_get C lab m pos nxt b inp :
+  instr_at C lab pos nxt SVC -> C m -> nxt < W ->
+  in_mem (wrap (rd m 1 + 2)) = true -> in_mem (wrap (rd m 1 + 1)) = true -> is_console (rd m (wrap (rd m 1 + 2))) = true ->
+  runs inp (mk pos 2 b 0 m) [Read (rd m (wrap (rd m 1 + 2))) (console_byte inp)] (console_next inp)
+       (mk nxt 2 b 0 (wr m (wrap (rd m 1 + 1)) (console_byte inp))).
+Proof.
+  intros [Hpos Hat] HC Hn H2 H1 Hcon. destruct (Hat m 2 b inp HC) as (s' & Ht & Hpc & Ha & Hb & Hm & Hby).
+  eapply taus_runs; [exact Ht|]. cbn [opc operand] in Hby.
+  rewrite <- Hm in H2, H1, Hcon. pose proof (step_svc_get s' inp Hby Ha H2 H1 Hcon) as Hs.
+  rewrite (next_pc s' nxt Hpc ltac:(lia)), Ha, Hb, Hm in Hs.
+  eapply runs_read. exact Hs.
 Qed.
 
 Lemma exec_svc_put C lab m pos nxt b inp :
